@@ -18,6 +18,24 @@ bool IsServiceNumeric(std::string const &serv)
   return std::regex_match(serv.c_str(), reNumeric);
 }
 
+// the regex matcher recurses with every character matched and would exhaust
+// the stack on long input: it must only be given text of limited length
+constexpr size_t servLengthMax = NI_MAXSERV;
+constexpr size_t authorityLengthMax = // serv://[host]:serv
+    servLengthMax + 3U + NI_MAXHOST + 3U + servLengthMax;
+
+// cut off the path that follows the authority of an URI
+std::string_view TrimPath(std::string_view uri)
+{
+  auto pathPos = uri.find('/');
+  if((pathPos != std::string_view::npos) && (pathPos > 0U) &&
+     (uri[pathPos - 1U] == ':') && (uri.substr(pathPos, 2U) == "//")) {
+    // skip the delimiter in serv://host/path
+    pathPos = uri.find('/', pathPos + 2U);
+  }
+  return uri.substr(0U, pathPos);
+}
+
 void CheckServiceNumericOutOfRange(std::string const &serv)
 {
   auto port = std::stoll(serv);
@@ -37,6 +55,11 @@ struct UriDissect
   {
     hints.ai_family = AF_UNSPEC;
     hints.ai_flags = AI_PASSIVE;
+
+    uri = TrimPath(uri);
+    if(uri.size() > authorityLengthMax) {
+      throw std::invalid_argument("uri too long");
+    }
 
     std::cmatch match;
     static std::regex const reServ(R"(((^\w+)?://)?([^/]+)/?.*$)");
@@ -97,6 +120,8 @@ SockAddrInfo::AddrInfoPtr ParseHostServ(std::string const &host,
     throw std::invalid_argument("empty host");
   } else if(serv.empty()) {
     throw std::invalid_argument("empty service");
+  } else if(serv.size() > servLengthMax) {
+    throw std::invalid_argument("service too long");
   } else if(IsServiceNumeric(serv)) {
     CheckServiceNumericOutOfRange(serv);
   }
